@@ -6,6 +6,13 @@ import vlib
 def validate_records(chk, wd, trace_module, recs, label, sig_of=None):
     """Validate harness records with a trace spec; every rejected record is reported (the spec skips it and goes on)."""
     path = os.path.join(wd, f"{label}.rec.ndjson")
+    # a panic in the code under test is data: it is a violation by itself and never reaches the trace specification
+    # (whose operators are defined on results, not on panic messages)
+    total = len(recs)
+    for x in recs:
+        if isinstance(x.get("out"), dict) and "panic" in x["out"]:
+            chk.violation(f"{x.get('fn')}:panic", f"{x.get('fn')} panicked: {str(x['out']['panic'])[:120]} on {json.dumps({k: v for k, v in x.items() if k != 'out'})[:200]}", {"kind": "record", "record": x})
+    recs = [x for x in recs if not (isinstance(x.get("out"), dict) and "panic" in x["out"])]
     with open(path, "w") as f:
         for x in recs:
             f.write(json.dumps(x) + "\n")
@@ -16,9 +23,9 @@ def validate_records(chk, wd, trace_module, recs, label, sig_of=None):
             bad = recs[pos - 1]
             sig = sig_of(bad) if sig_of else f"{bad['fn']}:record"
             chk.violation(sig, f"{bad['fn']} record not explained by the specification: {json.dumps(bad)[:300]}", {"kind": "record", "record": bad})
-    chk.evaluations += len(recs)
-    chk.traces += len(recs)
-    return len(recs)
+    chk.evaluations += total
+    chk.traces += total
+    return total
 
 
 def run_vectors(chk, wd, gen_module, *, gen_cfg=None, env=None, workers=4, label="gen", sig_of=None, what_of=None, timeout=3600,
@@ -52,7 +59,7 @@ def run_vectors(chk, wd, gen_module, *, gen_cfg=None, env=None, workers=4, label
             continue
         v = r["vec"]
         sig = sig_of(v, r["got"]) if sig_of else f"{v['fn']}"
-        what = what_of(v, r["got"]) if what_of else f"{v['fn']} in={json.dumps(v.get('in'))[:120]} expected {json.dumps(v['exp'])[:160]} got {json.dumps(r['got'])[:160]}"
+        what = what_of(v, r["got"]) if what_of else f"{v['fn']} in={json.dumps(v.get('in'))[:120]} expected {json.dumps(v.get('exp'))[:160]} got {json.dumps(r['got'])[:160]}"
         chk.violation(sig, what, {"kind": "vector", "vector": v, "got": r["got"]})
     if summary is None or summary["vectors"] != n:
         raise vlib.ToolError("harness did not process every vector")
